@@ -609,7 +609,7 @@ func (tdsChan *Channel) WritePacket(packet *Packet) {
 	// after a response whose length is a multiple of the packet size)
 	// and are handled like any other response packet.
 	if packet.Header.Length == PacketHeaderSize && packet.Header.MsgType != TDS_BUF_RESPONSE {
-		tdsChan.packageCh <- HeaderOnlyPackage{Header: packet.Header}
+		tdsChan.packageCh <- &HeaderOnlyPackage{Header: packet.Header}
 		return
 	}
 
